@@ -40,3 +40,20 @@ def mutate(r, data, tags=("Silf", "Glat", "Gloc", "Feat", "Sill", "cmap", "hmtx"
         b = b[:cut]
         desc.append("cut@%d" % cut)
     return bytes(b), ",".join(desc)
+
+
+def replace_table(data, tag, new):
+    """rebuilds the sfnt with table `tag` replaced by `new` (added when absent)"""
+    t = tables(data)
+    parts = {k: data[v[0]:v[0] + v[1]] for k, v in t.items()}
+    parts[tag] = new
+    tags = sorted(parts)
+    n = len(tags)
+    out = data[:4] + struct.pack(">HHHH", n, 0, 0, 0)
+    off = 12 + 16 * n
+    dirb, body = b"", b""
+    for k in tags:
+        d = parts[k]
+        dirb += k.encode("latin1") + struct.pack(">III", 0, off + len(body), len(d))
+        body += d + b"\0" * ((4 - len(d) % 4) % 4)
+    return out + dirb + body
